@@ -233,6 +233,15 @@ func faultOne(sc *faultScn, idx int) verdict {
 	case "zero":
 		conn, eff = 70*time.Millisecond, 0
 		opOpts = append(opOpts, opoptions.WithTimeoutOps(0))
+	case "paced":
+		// the device is slow but alive up to the stall: what it delivers before byte k takes 70 % of the timeout; the clock of
+		// the operation runs from its start, not from the last byte or the last write
+		conn, eff = time.Second, time.Second
+
+		if sc.K%2 == 1 {
+			conn = 3 * time.Second
+			opOpts = append(opOpts, opoptions.WithTimeoutOps(eff))
+		}
 	}
 
 	if sc.Fault != "stall" {
@@ -257,6 +266,13 @@ func faultOne(sc *faultScn, idx int) verdict {
 
 	arm := func() {
 		s.pipe.Mark()
+
+		if sc.Setting == "paced" && sc.K > 0 {
+			s.pipe.Lock()
+			s.pipe.Seg = simdev.Seg{Mode: "one"}
+			s.pipe.ReadDelay = eff * 7 / 10 / time.Duration(sc.K)
+			s.pipe.Unlock()
+		}
 
 		if sc.Fault == "stall" {
 			s.pipe.SetStall(sc.K)
@@ -365,6 +381,14 @@ func faultOne(sc *faultScn, idx int) verdict {
 
 	fin, pan := withWatchdog(eff+6*time.Second, func() { res, err = op.run(s, opOpts, tparam) })
 	dur := time.Since(t0)
+
+	if sc.Setting == "paced" {
+		// the device is back to its normal speed for whatever follows
+		s.pipe.Lock()
+		s.pipe.Seg = faultSegs["rand"]
+		s.pipe.ReadDelay = 0
+		s.pipe.Unlock()
+	}
 	class := errClass(err)
 
 	if class != "ok" && class != "timeout" {
